@@ -155,6 +155,10 @@ func (s *Applier) applyUpdateOperation(anchoredOp *operation.AnchoredOperation,
 		return nil, fmt.Errorf("failed to parse update operation in batch mode: %s", err.Error())
 	}
 
+	if err := checkSuffix(anchoredOp, op.UniqueSuffix); err != nil {
+		return nil, err
+	}
+
 	signedDataModel, err := s.ParseSignedDataForUpdate(op.SignedData)
 	if err != nil {
 		return nil, fmt.Errorf("failed to unmarshal signed data model while applying update: %s", err.Error())
@@ -235,6 +239,10 @@ func (s *Applier) applyDeactivateOperation(anchoredOp *operation.AnchoredOperati
 		return nil, fmt.Errorf("failed to parse deactive operation in batch mode: %s", err.Error())
 	}
 
+	if err := checkSuffix(anchoredOp, op.UniqueSuffix); err != nil {
+		return nil, err
+	}
+
 	signedDataModel, err := s.ParseSignedDataForDeactivate(op.SignedData)
 	if err != nil {
 		return nil, fmt.Errorf("failed to parse signed data model while applying deactivate: %s", err.Error())
@@ -287,6 +295,10 @@ func (s *Applier) applyRecoverOperation(anchoredOp *operation.AnchoredOperation,
 	op, err := s.OperationParser.ParseRecoverOperation(anchoredOp.OperationRequest, true)
 	if err != nil {
 		return nil, fmt.Errorf("failed to parse recover operation in batch mode: %s", err.Error())
+	}
+
+	if err := checkSuffix(anchoredOp, op.UniqueSuffix); err != nil {
+		return nil, err
 	}
 
 	signedDataModel, err := s.ParseSignedDataForRecover(op.SignedData)
@@ -407,4 +419,14 @@ func (s *Applier) isBeforeAnchorUntil(from, until int64, anchor uint64) bool {
 	distance := uint64(-(from + 1)) + 1
 
 	return delta >= distance && anchor <= delta-distance
+}
+
+// checkSuffix checks that the operation request is one for the DID under which the operation is filed.
+func checkSuffix(anchoredOp *operation.AnchoredOperation, requestSuffix string) error {
+	if anchoredOp.UniqueSuffix != "" && anchoredOp.UniqueSuffix != requestSuffix {
+		return fmt.Errorf("%s operation for suffix[%s] cannot be applied to suffix[%s]",
+			anchoredOp.Type, requestSuffix, anchoredOp.UniqueSuffix)
+	}
+
+	return nil
 }
